@@ -280,6 +280,10 @@ def oracle(case, obs, check=("sem", "md", "edges", "refs", "early", "emitwait", 
                 err = stat
         if err:
             any_error = True
+        if err and "RecursionError" in err and "sem" in check:
+            problems.append(("semantics:non-terminating", "op %d %r: the emission never terminated (RecursionError): an element keeps circulating "
+                             "(a de-duplicating node on a feedback edge let a repeated element through)" % (k, op)))
+            return problems
         # ---- per node semantics: feed arrivals, compare with the node's emissions (C01, C10, C16)
         if "sem" in check and not edited:
             # segment the flat log: for every node, arrivals and emissions in order
